@@ -5,6 +5,7 @@ import (
 	"go/types"
 	"os"
 	"path/filepath"
+	"sort"
 	"strconv"
 	"strings"
 
@@ -1421,6 +1422,52 @@ func exceptionTableOracle(c *kit.Ctx) {
 	}
 	if n < 10 {
 		c.Unk(e2e, "exception-table-oracle", token.NoPos, "the oracle table has fewer entries than confirmed")
+	}
+	// the other direction: every class in one of the three maps is in the oracle table. A class that is added to
+	// a map without a stated reason changes the client's reaction to it (e.g. CallDroppedException as a server
+	// error: a busy but alive server gets its shared connection failed for all its regions)
+	oracle := map[string]bool{}
+	for _, line := range strings.Split(string(b), "\n") {
+		if f := strings.SplitN(line, "\t", 3); len(f) == 3 && !strings.HasPrefix(line, "#") {
+			oracle[f[0]] = true
+		}
+	}
+	inTables := map[string][]string{}
+	for t, ks := range have {
+		for k := range ks {
+			inTables[k] = append(inTables[k], t)
+		}
+	}
+	for k, ts := range inTables {
+		if len(ts) > 1 {
+			sort.Strings(ts)
+			c.Bad(e2e, "exception-class-in-one-table "+k, token.NoPos, k+" is listed in more than one table ("+strings.Join(ts, ", ")+"): exceptionToError consults them in a fixed order, so the earlier table shadows the later one - e.g. a server-fatal class that is also 'retryable' no longer fails the connection: the other outstanding calls are left waiting and the dead server keeps its connection", "")
+		}
+	}
+	for t, ks := range have {
+		for k := range ks {
+			uq := k
+			if u, err := strconv.Unquote(k); err == nil {
+				uq = u
+			}
+			c.Check(oracle[uq], e2e, "exception-class-known "+uq, token.NoPos, "listed in the oracle table", uq+" has been added to "+t+" but the oracle table (tables/exception_classes.txt) does not state which reaction it must get and why: the reaction to that exception changes for every request")
+		}
+	}
+	// matching is by substring of the stack trace: a real trace starts with "<class>: <message>", so a prefix or
+	// equality test never matches the one entry that carries a message (IOException "Cannot append; log is closed")
+	if e2e != nil {
+		contains, other := 0, ""
+		kit.Instrs(e2e, func(in ssa.Instruction) {
+			if call, ok := in.(*ssa.Call); ok {
+				switch n := kit.CalleeName(call); n {
+				case "strings.Contains":
+					contains++
+				case "strings.HasPrefix", "strings.HasSuffix", "strings.EqualFold", "strings.Index":
+					other = n
+				}
+			}
+		})
+		c.Check(contains >= 1 && other == "", e2e, "exception-message-by-substring", e2e.Pos(), "the message of a table entry is looked for anywhere in the stack trace (strings.Contains)", "exceptionToError no longer matches the message of a table entry as a substring of the stack trace ("+other+"): real traces begin with the class name, so 'java.io.IOException: Cannot append; log is closed' is not recognised as NotServingRegion any more and surfaces to the caller")
 	}
 }
 
